@@ -22,6 +22,9 @@ type PropCfg struct {
 	Note      string   `json:"note,omitempty"`
 	Assumed   []string `json:"assumed,omitempty"`
 	NotDecided []string `json:"not_decided,omitempty"`
+	// LevelOther: the evidence level is 'other' even when every obligation is discharged (e.g. part of the claim rests on a
+	// bounded stand-in); the text becomes coverage.explanation
+	LevelOther string `json:"level_other,omitempty"`
 }
 
 type runResult struct {
